@@ -463,6 +463,7 @@ func (c *child) stress() {
 		in  *c08.Inputs
 		ops []Op8
 		nR  int
+		R   int // renders per goroutine (0: the default)
 	}
 	var jobs []job
 	// the model's bundles first, then generated ones
@@ -475,16 +476,27 @@ func (c *child) stress() {
 		for _, f := range fam.Inputs.Files {
 			ops = append(ops, Op8{Op: "genjs", F: f.Name})
 		}
-		jobs = append(jobs, job{fam.Cfg, fam.Inputs, ops, n})
+		jobs = append(jobs, job{fam.Cfg, fam.Inputs, ops, n, 0})
+	}
+	if c.in.StressBundles > 0 {
+		// LARGE content blocks and values, first: their buffers are where pooling
+		// and reuse go wrong
+		in, ops, n := bigJob()
+		jobs = append(jobs, job{c08.Configs[0], in, ops, n, R / 5}, job{c08.Configs[3], in, ops, n, R / 5})
 	}
 	for b := 0; b < c.in.StressBundles; b++ {
 		cfg := c08.Configs[(b%2)*3] // alternately no extensions / obligatory directive + custom function
 		g := &core.ProgGen{R: r, MaxDepth: 1 + r.Intn(3)}
 		p := g.Gen()
 		in, _, ops, nRender := c08.BuildCases(r, p, cfg)
-		jobs = append(jobs, job{cfg, in, ops[:len(ops)-1], nRender})
+		jobs = append(jobs, job{cfg, in, ops[:len(ops)-1], nRender, 0})
 	}
+	defaultR := R
 	for ji, j := range jobs {
+		R := defaultR
+		if j.R > 0 {
+			R = j.R
+		}
 		restore, err := c08.Install(j.cfg)
 		if err != nil {
 			c.toolErr("install %s: %v", j.cfg.Name, err)
@@ -631,6 +643,51 @@ func (c *child) stress() {
 		c.compileStress(G, R/10+1)
 		c.attribute(&Mismatch{Kind: "stress-compile", Family: "race-detector", What: "concurrent compilation of independent bundles"}, nil)
 	}
+}
+
+// bigJob is a bundle whose {param} / {let} / {log} content blocks and printed
+// values are LARGE: the eight render cases produce blocks just below and just
+// above 512 B, 1 KiB, 4 KiB and 64 KiB, each with text of its own, so that
+// bytes of one render showing up in another are recognisable.
+func bigJob() (*c08.Inputs, []Op8, int) {
+	loop := func(body ...core.Cmd) core.Cmd {
+		return core.CForeach("foreach", "i", core.EFn("range", core.EVar("n")), body, core.Opt(false, nil))
+	}
+	noesc := core.CDir("noAutoescape")
+	p := &core.Program{
+		Bundle: map[string]*core.Tmpl{
+			"big.layout": {Params: []core.Param{{Name: "title"}, {Name: "body"}},
+				Body: []core.Cmd{core.CText("<h>"), core.CPrint(core.EVar("title")), core.CText("</h>"), core.CPrint(core.EVar("body"), noesc), core.CText("<f>")}},
+			"big.page": {Params: []core.Param{{Name: "n"}, {Name: "s"}, {Name: "blob"}},
+				Body: []core.Cmd{
+					core.CCall("big.layout", "none", nil, core.CPV("title", core.EVar("s")),
+						core.CPC("body", []core.Cmd{loop(core.CPrint(core.EVar("s")), core.CPrint(core.EVar("i")), core.CText(","))})),
+					core.CLetC("b", []core.Cmd{loop(core.CText("["), core.CPrint(core.EVar("i")), core.CPrint(core.EVar("s")), core.CText("]"))}),
+					core.CPrint(core.EVar("b"), noesc),
+					core.CLog([]core.Cmd{loop(core.CPrint(core.EVar("s")))}),
+					core.CText("|"),
+					core.CPrint(core.EVar("blob")),
+				}},
+		},
+		Entry: "big.page", Glob: map[string]core.V{}, IJ: core.V{"t": "none"},
+		Plan: map[string]interface{}{"kind": "none"}, Aliases: map[string]bool{},
+	}
+	in := &c08.Inputs{Files: core.UnparseProgram(p, core.Style{}), Data: map[string]map[string]core.V{}, IJ: core.V{"t": "none"}}
+	var ops []Op8
+	// per iteration the {param} block writes len(s)+digits+1 = about 19 bytes
+	for k, n := range []int{24, 30, 50, 58, 205, 230, 3300, 3600} {
+		s := fmt.Sprintf("s%d<%s>", k, strings.Repeat(string(rune('a'+k)), 10))
+		blobLen := []int{500, 530, 1000, 1050, 4000, 4200, 65000, 66000}[k]
+		blob := strings.Repeat(fmt.Sprintf("B%d&", k), blobLen/3)
+		d := fmt.Sprintf("n%d", n)
+		in.Data[d] = map[string]core.V{"n": core.VInt(n), "s": core.VStr(s), "blob": core.VStr(blob)}
+		ops = append(ops, Op8{Op: "render", T: "big.page", D: d})
+	}
+	n := len(ops)
+	for _, f := range in.Files {
+		ops = append(ops, Op8{Op: "genjs", F: f.Name})
+	}
+	return in, ops, n
 }
 
 // Op8 is c08's operation type.
